@@ -134,14 +134,46 @@ def regenerate(translators=None):
 
 
 # --------------------------------------------------------------------------- Coq
-def scan_forbidden():
-    """grep the development for forbidden vernacular; returns list of 'file:line: text'."""
+def dep_cone(files):
+    """Transitive closure of `From RS Require ... ` dependencies of the given .v files (paths relative to coq/)."""
+    seen = set()
+    todo = [f for f in files]
+    while todo:
+        f = todo.pop()
+        if f in seen:
+            continue
+        p = os.path.join(COQ, f)
+        if not os.path.exists(p):
+            continue
+        seen.add(f)
+        txt = open(p, errors="replace").read()
+        for m in re.finditer(r"From\s+RS\s+Require\s+(?:Import\s+|Export\s+)?(.*?)\.(?=\s)", txt, re.S):
+            for mod in m.group(1).split():
+                mod = mod.strip()
+                if re.fullmatch(r"[A-Za-z_]\w*(\.[A-Za-z_]\w*)*", mod):
+                    todo.append(mod.replace(".", "/") + ".v")
+        for m in re.finditer(r"Require\s+(?:Import\s+|Export\s+)?((?:RS\.[\w.]+\s*)+)\.(?=\s)", txt):
+            for mod in m.group(1).split():
+                todo.append(mod[3:].replace(".", "/") + ".v")
+    return sorted(seen)
+
+
+def scan_forbidden(files=None):
+    """grep the development (or the given files, relative to coq/) for forbidden vernacular;
+    returns list of 'file:line: text'."""
     bad = []
-    for root, _d, files in os.walk(COQ):
-        for fn in files:
-            if not fn.endswith(".v"):
+    paths = []
+    if files is None:
+        for root, _d, fs in os.walk(COQ):
+            for fn in fs:
+                if fn.endswith(".v"):
+                    paths.append(os.path.join(root, fn))
+    else:
+        paths = [os.path.join(COQ, f) for f in files]
+    for p in sorted(paths):
+        if True:
+            if not os.path.exists(p):
                 continue
-            p = os.path.join(root, fn)
             txt = open(p, errors="replace").read()
             # strip comments (nested)
             out = []
@@ -497,7 +529,9 @@ def proof_stage(rep, prop_file, extra_targets=(), allowed_axioms=(), translators
     if errs:
         rep.violation("translator failed (tie to source broken): " + "; ".join(errs), {"translator_errors": errs}, False)
         ok_all = False
-    bad = scan_forbidden()
+    cone = dep_cone([prop_file] + [t[:-1] if t.endswith(".vo") else t for t in extra_targets])
+    rep.coverage["coq_files_in_cone"] = len(cone)
+    bad = scan_forbidden(cone)
     if bad:
         rep.violation("forbidden vernacular in the Coq development: " + "; ".join(bad[:5]), {"forbidden": bad}, False)
         ok_all = False
